@@ -66,7 +66,7 @@ add_hybrid = op('add_hybrid', pe=st.integers(1, 4), mbr_id=st.one_of(NONE, st.in
                 pt=st.one_of(NONE, st.sampled_from([0, 0x17, 0x83, 0xef])), mac=st.sampled_from([False, False, True]),
                 efi=st.sampled_from([None, None, True, False]))
 rm_hybrid = op('rm_hybrid')
-bad = op('bad', w=st.integers(0, 200), wx=st.one_of(NONE, NONE, NONE, NONE, st.integers(0, 100)), i=I, to=I, len=st.sampled_from([0, 5, 2048, 70]), bit=st.booleans(), sz=SZ,
+bad = op('bad', w=st.integers(0, 200), wx=st.one_of(NONE, NONE, NONE, NONE, st.integers(0, 100)), wy=st.one_of(NONE, NONE, NONE, st.integers(0, 100)), i=I, to=I, len=st.sampled_from([0, 5, 2048, 70]), bit=st.booleans(), sz=SZ,
          rsz=st.sampled_from([0, 1, 2, 3, 3, 4, 5, 6]), usz=st.integers(0, 2), lead=I, salt=I)
 
 
@@ -225,6 +225,8 @@ def any_profile(reopen_ok=False, weights=None, with_manydirs=False):
         table['ptedge'] = ptedge(reopen_ok=reopen_ok)
     if 'bootlinks' in w:
         table['bootlinks'] = bootlinks(reopen_ok=reopen_ok)
+    if 'reloctwins' in w:
+        table['reloctwins'] = reloctwins(reopen_ok=reopen_ok)
     alts = []
     for name, n in w.items():
         s = table[name].map(lambda p, name=name: dict(p, profile=name))
@@ -374,6 +376,32 @@ def bootlinks(cfg=None, reopen_ok=True):
         body_choices += [reopen]
     body = st.lists(st.one_of(*body_choices), min_size=2, max_size=12)
     return program(c, st.builds(lambda f, o, b, p, u, m, t: [f] + o + b + p + u + m + t, bootfile, other, boots, prelinks, unlink_iso, st.one_of(*mid_choices), body))
+
+
+def reloctwins(cfg=None, reopen_ok=False):
+    """Two (or three) relocated directories that have the *same* names in different parents: a chain of six
+    directories, below its end the siblings G and H (depth 7), and in each of them a directory X (depth 8, so it
+    is relocated) - the second and third X take the first one's names (`reuse`).  Files inside each, then edits."""
+    c = cfg if cfg is not None else cfg_st(rr=st.sampled_from(['1.09', '1.10', '1.12']), level=st.sampled_from([1, 2, 3, 3]))
+
+    def build(chain, g, x, fx, h, x2, fx2, third, tail):
+        ops = [dict(o, d=-1, reuse=0) for o in chain]
+        ops.append(dict(g, d=-1, reuse=0))          # G, depth 7
+        ops.append(dict(x, d=-1, reuse=0))          # G/X, depth 8: relocated
+        ops.append(dict(fx, d=-1))
+        ops.append(dict(h, d=6, reuse=0))           # H next to G
+        ops.append(dict(x2, d=-1, reuse=7))         # H/X: pool holds the six of the chain, G, X, H -> index 7 is X
+        ops.append(dict(fx2, d=-1))
+        if third:
+            ops.append(dict(h, d=6, reuse=0, salt=(h.get('salt', 0) + 1) % 1000))
+            ops.append(dict(x2, d=-1, reuse=7, salt=(x2.get('salt', 0) + 1) % 1000))
+        return ops + tail
+    D = add_dir(ns=st.sampled_from([7, 7, 1, 3]), rsz=st.integers(0, 3), sz=st.integers(0, 2))
+    F = add_fp(length=SMALL_LEN, file=st.just(False))
+    tail_choices = [rm_file, rm_dir, rm_dir, add_fp(d=I, length=SMALL_LEN), add_sym, query, write, hide, add_dir(d=I)]
+    if reopen_ok:
+        tail_choices += [reopen, reopen]
+    return program(c, st.builds(build, st.lists(D, min_size=6, max_size=6), D, D, F, D, D, F, st.booleans(), st.lists(st.one_of(*tail_choices), min_size=0, max_size=10)))
 
 
 def _recipe(target, sizes, picks):
